@@ -1,6 +1,6 @@
-(** C11, third clause: the options do not make DeepDiff raise - on inputs whose
-    dict keys are not numbers when a key-cleaning option is set without a
-    precision (finding K8).  Under that guard the model never returns Err. *)
+(** C11, third clause: the options do not make DeepDiff raise.  Since the fixes
+    0fac13b (bytes keys in the path printer) and d664dbb (numeric keys in key
+    cleaning, K8) the model never returns Err: for all values and options. *)
 From Coq Require Import List ZArith NArith Bool Arith Lia.
 Import ListNotations.
 From DD Require Import Base.PyStr Base.Value Diff.Tree Diff.DiffModel Options.OptModel
@@ -12,94 +12,49 @@ Variable c : cfg.
 Variable udiff : pystr -> pystr -> pystr.
 Variable ops : path -> list value -> list value -> list opcode.
 
-(* every dict key anywhere: cleanable when key cleaning is active *)
-Definition key_safe (k : atom) : bool := negb (cleaning F) || key_cleanable F k.
-Fixpoint safe (v : value) : bool :=
-  match v with
-  | VAtom _ | VSet _ | VFrozen _ => true
-  | VList xs | VTuple xs => forallb safe xs
-  | VDict kvs => forallb (fun kv => key_safe (fst kv) && safe (snd kv)) kvs
-  end.
-
-Lemma safe_key : forall kvs k, safe (VDict kvs) = true -> In k (map fst kvs) -> key_safe k = true.
+Lemma clean_map_ok : forall ks acc, exists km, clean_map F ks acc = Ok km.
 Proof.
-  intros kvs k H Hin. cbn [safe] in H. rewrite forallb_forall in H.
-  apply in_map_iff in Hin. destruct Hin as [[k' v] [E Hin]]. cbn in E. subst.
-  specialize (H _ Hin). cbn [fst snd] in H. apply andb_true_iff in H. tauto.
-Qed.
-Lemma safe_val : forall kvs k v, safe (VDict kvs) = true -> In (k, v) kvs -> safe v = true.
-Proof.
-  intros kvs k v H Hin. cbn [safe] in H. rewrite forallb_forall in H.
-  specialize (H _ Hin). cbn [fst snd] in H. apply andb_true_iff in H. tauto.
+  induction ks as [|k r IH]; intros acc; cbn [clean_map]; [eexists; reflexivity|].
+  destruct (clean_key_ok F k) as [ck Eck]. rewrite Eck. cbn [bind].
+  destruct (mem_atom ck (map fst acc)); apply IH.
 Qed.
 
-(* clean_map succeeds on safe keys; its entries come from the keys (or the accumulator) *)
-Lemma clean_map_ok : forall ks acc,
-  cleaning F = true -> (forall k, In k ks -> key_safe k = true) ->
-  exists km, clean_map F ks acc = Ok km /\
-    forall ck k, In (ck, k) km -> In (ck, k) acc \/ (In k ks /\ clean_key F k = Ok ck).
-Proof.
-  induction ks as [|k r IH]; intros acc Hc Hs; cbn [clean_map].
-  - exists (rev acc). split; [reflexivity|]. intros ck k H. left. apply in_rev. exact H.
-  - pose proof (Hs k (or_introl eq_refl)) as Hk. unfold key_safe in Hk. rewrite Hc in Hk. cbn [negb orb] in Hk.
-    destruct (clean_key_ok F k Hk) as [ck Eck].
-    rewrite Eck. cbn [bind].
-    destruct (mem_atom ck (map fst acc)).
-    + destruct (IH acc Hc (fun x Hx => Hs x (or_intror Hx))) as [km [E Hin]].
-      exists km. split; [exact E|]. intros ck' k' H. destruct (Hin ck' k' H) as [H1|[H1 H2]]; [left; exact H1|right; split; [right; exact H1|exact H2]].
-    + destruct (IH ((ck, k) :: acc) Hc (fun x Hx => Hs x (or_intror Hx))) as [km [E Hin]].
-      exists km. split; [exact E|]. intros ck' k' H. destruct (Hin ck' k' H) as [H1|[H1 H2]].
-      * destruct H1 as [H1|H1]; [inversion H1; subst; right; split; [left; reflexivity|exact Eck]|left; exact H1].
-      * right. split; [right; exact H1|exact H2].
-Qed.
+Lemma kmap_ok : forall ks, exists km, kmap F ks = Ok km.
+Proof. intros ks. unfold kmap. destruct (cleaning F); [apply clean_map_ok|eexists; reflexivity]. Qed.
 
-Theorem safe_no_raise : forall t1 t2 p1 p2,
-  safe t1 = true -> safe t2 = true -> exists r, diffF udiff ops c F t1 t2 p1 p2 = Ok r.
+Theorem never_raises : forall t1 t2 p1 p2, exists r, diffF udiff ops c F t1 t2 p1 p2 = Ok r.
 Proof.
-  induction t1 as [a|xs IH|xs IH|kvs IH|xs|xs] using value_ind'; intros t2 p1 p2 Hs1 Hs2; cbn [diffF];
+  induction t1 as [a|xs IH|xs IH|kvs IH|xs|xs] using value_ind'; intros t2 p1 p2; cbn [diffF];
     (destruct (excluded F (type_of _) || excluded F (type_of t2)); [eexists; reflexivity|]);
     (destruct (negb (ty_eqb _ (type_of t2)) && negb (same_group F _ (type_of t2))); [eexists; reflexivity|]).
   - destruct t2; eexists; reflexivity.
   - destruct t2 as [b|ys|ys|kvs2|ys|ys]; try (eexists; reflexivity).
     destruct (negb (zip c) && forallb is_atom xs && forallb is_atom ys).
     + destruct (default_leaf_listF udiff ops F xs ys p1 p2). eexists; reflexivity.
-    + cbn [safe] in Hs1, Hs2. generalize 0 as i. revert ys Hs2.
-      induction xs as [|x xs IHxs]; intros ys Hs2 i; [eexists; reflexivity|].
+    + generalize 0 as i. revert ys.
+      induction xs as [|x xs IHxs]; intros ys i; [eexists; reflexivity|].
       destruct ys as [|y ys]; [eexists; reflexivity|].
       inversion IH as [|? ? Hx Hxs]; subst.
-      cbn [forallb] in Hs1, Hs2. apply andb_true_iff in Hs1. destruct Hs1 as [Ha Hb].
-      apply andb_true_iff in Hs2. destruct Hs2 as [Ha2 Hb2].
-      destruct (Hx y (snoc p1 (PIdx i)) (snoc p2 (PIdx i)) Ha Ha2) as [r1 E1]. rewrite E1. cbn [bind].
-      destruct (IHxs Hxs Hb ys Hb2 (S i)) as [r2 E2]. rewrite E2. cbn [bind]. eexists; reflexivity.
+      destruct (Hx y (snoc p1 (PIdx i)) (snoc p2 (PIdx i))) as [r1 E1]. rewrite E1. cbn [bind].
+      destruct (IHxs Hxs ys (S i)) as [r2 E2]. rewrite E2. cbn [bind]. eexists; reflexivity.
   - destruct t2 as [b|ys|ys|kvs2|ys|ys]; try (eexists; reflexivity).
     destruct (negb (zip c) && forallb is_atom xs && forallb is_atom ys).
     + destruct (default_leaf_listF udiff ops F xs ys p1 p2). eexists; reflexivity.
-    + cbn [safe] in Hs1, Hs2. generalize 0 as i. revert ys Hs2.
-      induction xs as [|x xs IHxs]; intros ys Hs2 i; [eexists; reflexivity|].
+    + generalize 0 as i. revert ys.
+      induction xs as [|x xs IHxs]; intros ys i; [eexists; reflexivity|].
       destruct ys as [|y ys]; [eexists; reflexivity|].
       inversion IH as [|? ? Hx Hxs]; subst.
-      cbn [forallb] in Hs1, Hs2. apply andb_true_iff in Hs1. destruct Hs1 as [Ha Hb].
-      apply andb_true_iff in Hs2. destruct Hs2 as [Ha2 Hb2].
-      destruct (Hx y (snoc p1 (PIdx i)) (snoc p2 (PIdx i)) Ha Ha2) as [r1 E1]. rewrite E1. cbn [bind].
-      destruct (IHxs Hxs Hb ys Hb2 (S i)) as [r2 E2]. rewrite E2. cbn [bind]. eexists; reflexivity.
+      destruct (Hx y (snoc p1 (PIdx i)) (snoc p2 (PIdx i))) as [r1 E1]. rewrite E1. cbn [bind].
+      destruct (IHxs Hxs ys (S i)) as [r2 E2]. rewrite E2. cbn [bind]. eexists; reflexivity.
   - destruct t2 as [b|ys|ys|kvs2|ys|ys]; try (eexists; reflexivity).
-    (* the key maps *)
-    assert (forall kvs0, safe (VDict kvs0) = true -> exists km, kmap F (keys_of c kvs0) = Ok km) as Hkm.
-    { intros kvs0 Hs0.
-      assert (forall k, In k (keys_of c kvs0) -> key_safe k = true) as Hks.
-      { intros k Hk. apply keys_of_In in Hk. destruct Hk as [Hk _]. exact (safe_key kvs0 k Hs0 Hk). }
-      unfold kmap. destruct (cleaning F) eqn:Hc.
-      - destruct (clean_map_ok (keys_of c kvs0) [] Hc Hks) as [km [E _]]. exists km. exact E.
-      - exists []. reflexivity. }
-    destruct (Hkm kvs Hs1) as [km1 E1].
-    destruct (Hkm kvs2 Hs2) as [km2 E2].
+    destruct (kmap_ok (keys_of c kvs)) as [km1 E1].
+    destruct (kmap_ok (keys_of c kvs2)) as [km2 E2].
     rewrite E1, E2. cbn [bind].
     destruct (shortcutF c _ _); [eexists; reflexivity|].
     match goal with |- exists r, bind ?G _ = _ => assert (exists x, G = Ok x) as Hgo end.
-    { assert (forall k v, In (k, v) kvs -> safe v = true) as Hv by (intros k v H; exact (safe_val kvs k v Hs1 H)).
-      clear E1 Hs1. induction kvs as [|[k v1] r IHr]; [eexists; reflexivity|].
+    { clear E1. induction kvs as [|[k v1] r IHr]; [eexists; reflexivity|].
       inversion IH as [|? ? Hx Hxs]; subst. cbn [snd] in Hx.
-      destruct (IHr Hxs (fun k' v' H => Hv k' v' (or_intror H))) as [rest Erest]. rewrite Erest.
+      destruct (IHr Hxs) as [rest Erest]. rewrite Erest.
       assert (exists x, (if keep_key c k then
                 match repr_ckey F km1 k with
                 | Some ck =>
@@ -115,10 +70,9 @@ Proof.
                 end else Ok ([], [])) = Ok x) as [x Ex].
       { destruct (keep_key c k); [|eexists; reflexivity].
         destruct (repr_ckey F km1 k); [|eexists; reflexivity].
-        destruct (find _ _) as [ck'|] eqn:Ef; [|eexists; reflexivity].
-        destruct (assoc _ kvs2) as [v2|] eqn:Ea; [|eexists; reflexivity].
-        apply assoc_In in Ea. destruct Ea as [k2 [Hin _]].
-        apply Hx; [exact (Hv k v1 (or_introl eq_refl))|exact (safe_val kvs2 k2 v2 Hs2 Hin)]. }
+        destruct (find _ _) as [ck'|]; [|eexists; reflexivity].
+        destruct (assoc _ kvs2) as [v2|]; [|eexists; reflexivity].
+        apply Hx. }
       rewrite Ex. cbn [bind]. eexists; reflexivity. }
     destruct Hgo as [x Ex]. rewrite Ex. cbn [bind]. eexists; reflexivity.
   - destruct t2; eexists; reflexivity.
